@@ -151,6 +151,13 @@ class SubWriterTask(Process):
 
     def cancel(self):
         self.running = False
+        # This method is called in the parent process: the flag above is set
+        # on the parent's copy of this object and never reaches the running
+        # sub-process, so stop the sub-process explicitly before the parent
+        # removes the temporary storage they share
+        if self.is_alive():
+            self.terminate()
+            self.join()
 
 
 class MpWriter(SegmentWriter):
